@@ -168,10 +168,10 @@ def run(ck):
                 st, body = http("POST", base + "/write?db=db0", data=line, timeout=30)
                 if st == 204:
                     acked[ts] = v
-                    history.append(("ack", ts, v))
+                    history.append(("ack", ts, v, round(time.time() - t0, 3)))
                     return True
                 maybe.setdefault(ts, set()).add(v)
-                history.append(("noack", ts, v, st))
+                history.append(("noack", ts, v, st, round(time.time() - t0, 3)))
                 if time.time() > end:
                     return False
                 time.sleep(1)
@@ -205,6 +205,7 @@ def run(ck):
                            if got.get(ts) != v and got.get(ts) not in maybe.get(ts, set())]
                     if not bad:
                         history.append(("read-ok", label, len(got)))
+                        history.append(("read", label, dict(got), round(time.time() - t0, 3)))
                         return True
                 else:
                     bad = [("query failed", err)]
@@ -266,21 +267,21 @@ def run(ck):
                 th.start()
                 time.sleep(0.02)
                 stores[st[1]].kill()
-                history.append(("kill", st[1], "during-write"))
+                history.append(("kill", st[1], round(time.time() - t0, 3), "during-write"))
                 th.join()
             elif st[0] == "kill":
                 stores[st[1]].kill()
-                history.append(("kill", st[1]))
+                history.append(("kill", st[1], round(time.time() - t0, 3)))
             elif st[0] == "restart":
                 stores[st[1]].start()
-                history.append(("restart", st[1]))
+                history.append(("restart", st[1], round(time.time() - t0, 3)))
             elif st[0] == "pause":
                 stores[st[1]].sig(signal.SIGSTOP)
-                history.append(("pause", st[1]))
+                history.append(("pause", st[1], round(time.time() - t0, 3)))
             elif st[0] == "resume":
                 time.sleep(3)
                 stores[st[1]].sig(signal.SIGCONT)
-                history.append(("resume", st[1]))
+                history.append(("resume", st[1], round(time.time() - t0, 3)))
             elif st[0] == "sleep":
                 time.sleep(st[1])
         nack = len([h for h in history if h[0] == "ack"])
@@ -297,6 +298,7 @@ def run(ck):
         if nack == 0:
             ck.cov["black_box_cluster"] = "NOT RUN: the cluster accepted no write (see NOTES.md): %s" % history[:5]
             return
+        model_acceptance(ck, history, T0)
         if not ok:
             ck.violation({"kind": "direct-oracle-cluster", "what": "acknowledged point not readable with its latest value at: %s" % fails,
                           "history": history})
@@ -304,3 +306,43 @@ def run(ck):
         for p in reversed(procs):
             p.sig(signal.SIGCONT)
             p.kill()
+
+
+def model_acceptance(ck, history, T0):
+    """feed the recorded history to the Coq model: Corr.accepts obs witness must be true"""
+    import importlib.util
+    import re
+    p = os.path.join(os.path.dirname(os.path.abspath(__file__)), "accept.py")
+    spec = importlib.util.spec_from_file_location("c05_accept", p)
+    acc = importlib.util.module_from_spec(spec)
+    spec.loader.exec_module(acc)
+    # keys as small numbers (seconds offset of the point's timestamp)
+    h = []
+    for e in history:
+        if e[0] in ("ack", "noack"):
+            h.append((e[0], (e[1] - T0) // 1000000000, e[2]) + tuple(e[3:]))
+        elif e[0] == "read":
+            h.append(("read", e[1], {(k - T0) // 1000000000: v for k, v in e[2].items()}, e[3]))
+        elif e[0] in ("kill", "restart", "pause", "resume"):
+            h.append(e)
+    case, syn = acc.coq_case(h)
+    txt = ("From Coq Require Import List Arith NArith ZArith Bool. From OG Require Import C05.Model C05.Corr.\n"
+           "Import ListNotations.\nDefinition c : case := %s.\n"
+           "Definition R := Eval vm_compute in match c with CHist obs w => (accepts obs w, reject_at (init (cfg_repaired 3 30000)) w 0, "
+           "list_eqb oev_eqb (project w) obs) | _ => (false, None, false) end.\nPrint R.\n") % case
+    rc, out = ck.coq_eval("cluster_history", txt, timeout=900)
+    m = re.search(r"R\s*=\s*\((true|false),\s*(None|Some \d+),\s*(true|false)\)", out)
+    info = {"observations": len(syn.obs), "witness_steps": len(syn.w), "synthesizer_problems": syn.problems}
+    if rc != 0 or not m:
+        ck.broken.append("C05 cluster history: model evaluation failed: %s" % out[-400:])
+        info["accepted"] = None
+    else:
+        info["accepted"] = m.group(1) == "true" and not syn.problems
+        if not info["accepted"]:
+            info["rejected_at_witness_step"] = m.group(2)
+            info["projection_ok"] = m.group(3)
+            ck.broken.append("C05 cluster history is not accepted by the model (no model execution produces the observed acks and reads)")
+            ck.nofail_detail = {"kind": "cluster-history-not-accepted", "history": h, "witness": syn.w, "info": info}
+    if isinstance(ck.cov.get("black_box_cluster"), dict):
+        ck.cov["black_box_cluster"]["model_acceptance"] = info
+    ck.cov["traces_validated_against_impl"] = ck.cov.get("traces_validated_against_impl", 0) + (1 if info.get("accepted") else 0)
